@@ -110,6 +110,9 @@ def gen_case(rng, tier):
             node = L([SP('xref', path=tgt), S('filler', style='dq'), SP('xref', path=tgt)])
         cons.append({'key': key, 'kind': kind, 'of': list(p['path']), 'top': p['top']})
         items.append([key, node])
+    if rng.random() < 0.35:
+        # evaluations that overlap: a call whose target builds another config of its own
+        items.append(['helper', SP('call', func=f'verif_targets.nested{rng.randrange(100)}', args=M([['x', S(1)]]))])
     rng.shuffle(items)
     doc = M(items)
     docs = [doc]
@@ -187,7 +190,12 @@ def run(case):
         vio.append({'mech': 'build-fails', 'what': f'acyclic producer/consumer graph but the build {lib.describe(got)}; texts={texts!r}'})
     else:
         cfg = got[1]
-        names = [e[0] for e in log]
+        names = [e[0] for e in log if not e[0].startswith('inner_') and not e[0].startswith('nested')]
+        inner = [e[0] for e in log if e[0].startswith('inner_')]
+        if len(inner) != len(set(inner)) * 1 or any(inner.count(x) != 1 for x in set(inner)):
+            vio.append({'mech': 'nested-build-not-exactly-once', 'what': f'a config built inside a target ran its own dynamic node {[(x, inner.count(x)) for x in set(inner)]} times; texts={texts!r}'})
+        if 'helper' in cfg and not cfg['helper'].kwargs.get('inner_ok'):
+            vio.append({'mech': 'nested-build-consumers-differ', 'what': f'inside a nested build a reference did not alias its target; texts={texts!r}'})
         for p in case['prods']:
             n = names.count(p['name'])
             if p['deleted']:
@@ -224,8 +232,8 @@ def run(case):
                 if g2[0] != 'ok' or util.typed(_plain(g2[1]), other=_tag) != base:
                     vio.append({'mech': 'key-order-changes-result', 'what': f'texts={texts!r} -> {util.short(_plain(cfg), 300)} but with permuted keys {pt[0]!r} -> {lib.describe(g2) if g2[0] == "err" else util.short(_plain(g2[1]), 300)}'})
                     break
-                if sorted(e[0] for e in log2) != sorted(names):
-                    vio.append({'mech': 'key-order-changes-invocations', 'what': f'invocations {sorted(names)} vs {sorted(e[0] for e in log2)} after permuting keys; texts={pt!r}'})
+                if sorted(e[0] for e in log2 if not e[0].startswith('inner_') and not e[0].startswith('nested')) != sorted(names):
+                    vio.append({'mech': 'key-order-changes-invocations', 'what': f'invocations {sorted(names)} vs {sorted(e[0] for e in log2 if not e[0].startswith("inner_") and not e[0].startswith("nested"))} after permuting keys; texts={pt!r}'})
                     break
     multi = any(sum(1 for c in case['cons'] if c['of'] == p['path']) >= 2 for p in case['prods'])
     res = {'status': 'violation' if vio else 'ok', 'nontrivial': multi or any(p['deleted'] for p in case['prods']), 'feats': sorted(set(feats)),
